@@ -2,8 +2,8 @@
 /// some policy of the sequence has this id
 pub open spec fn id_in(s: Seq<Policy>, k: PolicyID) -> bool { exists|i: int| 0 <= i < s.len() && (#[trigger] s[i]).spec_id() == k }
 /// the sequence yields exactly the ids of d
-pub open spec fn yields_ids(s: Seq<Policy>, d: Set<PolicyID>) -> bool { forall|k: PolicyID| d.contains(k) <==> #[trigger] id_in(s, k) }
-pub open spec fn yields(s: Seq<Policy>, d: Set<PolicyID>, e: Effect) -> bool {
+pub open spec fn yields_ids(s: Seq<Policy>, d: SSet<PolicyID>) -> bool { forall|k: PolicyID| d.contains(k) <==> #[trigger] id_in(s, k) }
+pub open spec fn yields(s: Seq<Policy>, d: SSet<PolicyID>, e: Effect) -> bool {
     yields_ids(s, d) && (forall|i: int| 0 <= i < s.len() ==> (#[trigger] s[i]).spec_effect() == e)
 }
 pub broadcast proof fn lemma_id_in_concat(a: Seq<Policy>, b: Seq<Policy>, k: PolicyID)
@@ -38,16 +38,16 @@ pub open spec fn errors_ok(ids: Seq<PolicyID>, ps: Seq<&Policy>, n: int, ev: &Ev
 }
 
 // ---- PartialResponse-level specs ----
-pub open spec fn sp(p: PartialResponse) -> Set<PolicyID> { p.satisfied_permits@.dom() }
-pub open spec fn sf(p: PartialResponse) -> Set<PolicyID> { p.satisfied_forbids@.dom() }
-pub open spec fn rp(p: PartialResponse) -> Set<PolicyID> { p.residual_permits@.dom() }
-pub open spec fn rf(p: PartialResponse) -> Set<PolicyID> { p.residual_forbids@.dom() }
-pub open spec fn nonempty<A>(s: Set<A>) -> bool { exists|a: A| s.contains(a) }
+pub open spec fn sp(p: PartialResponse) -> SSet<PolicyID> { p.satisfied_permits@.dom() }
+pub open spec fn sf(p: PartialResponse) -> SSet<PolicyID> { p.satisfied_forbids@.dom() }
+pub open spec fn rp(p: PartialResponse) -> SSet<PolicyID> { p.residual_permits@.dom() }
+pub open spec fn rf(p: PartialResponse) -> SSet<PolicyID> { p.residual_forbids@.dom() }
+pub open spec fn nonempty<A>(s: SSet<A>) -> bool { exists|a: A| s.contains(a) }
 /// C01 at concretisation: residual policies count as errors, hence as not satisfied
 pub open spec fn pr_decision(p: PartialResponse) -> Decision {
     if nonempty(sp(p)) && !nonempty(sf(p)) { Decision::Allow } else { Decision::Deny }
 }
-pub open spec fn pr_reasons(p: PartialResponse) -> Set<PolicyID> { if nonempty(sf(p)) { sf(p) } else { sp(p) } }
+pub open spec fn pr_reasons(p: PartialResponse) -> SSet<PolicyID> { if nonempty(sf(p)) { sf(p) } else { sp(p) } }
 pub open spec fn pr_error_ids(p: PartialResponse) -> Seq<PolicyID> {
     p.residual_forbids.key_order() + p.residual_permits.key_order() + ids_err(p.errors@)
 }
@@ -60,7 +60,7 @@ pub open spec fn completed_decision(p: PartialResponse, c: spec_fn(PolicyID) -> 
 pub open spec fn completed_reason(p: PartialResponse, c: spec_fn(PolicyID) -> bool, id: PolicyID) -> bool {
     if exists|id: PolicyID| c_sat_forbid(p, c, id) { c_sat_forbid(p, c, id) } else { c_sat_permit(p, c, id) }
 }
-pub open spec fn pr_may(p: PartialResponse) -> Set<PolicyID> {
+pub open spec fn pr_may(p: PartialResponse) -> SSet<PolicyID> {
     if !nonempty(sf(p)) { sp(p) + rp(p) + rf(p) } else { sf(p) + rf(p) }
 }
 /// what the pipeline must establish about the partial response, in terms of the C01 spec
@@ -75,11 +75,11 @@ pub open spec fn rows_ok(r: PartialResponse, ps: Seq<&Policy>, ev: &Evaluator<'_
     &&& forall|id: PolicyID| #![auto] ids_err(r.errors@).contains(id) <==> (has(ps, ev, id, Effect::Permit, Outcome::Errd) || has(ps, ev, id, Effect::Forbid, Outcome::Errd))
 }
 
-pub proof fn lemma_nonempty_empty<A>(s: Set<A>)
-    ensures nonempty(s) <==> !(s =~= Set::<A>::empty())
+pub proof fn lemma_nonempty_empty<A>(s: SSet<A>)
+    ensures nonempty(s) <==> !(s =~= SSet::<A>::empty())
 {
-    if !(s =~= Set::<A>::empty()) {
-        let a = choose|a: A| s.contains(a) != Set::<A>::empty().contains(a);
+    if !(s =~= SSet::<A>::empty()) {
+        let a = choose|a: A| s.contains(a) != SSet::<A>::empty().contains(a);
         assert(s.contains(a));
     }
 }
@@ -247,7 +247,7 @@ impl vstd::std_specs::convert::FromSpecImpl<PartialResponse> for Response {
     open spec fn from_spec(v: PartialResponse) -> Response { arbitrary() }
 }
 
-pub proof fn lemma_yields_from_order(s: Seq<Policy>, order: Seq<PolicyID>, dom: Set<PolicyID>, e: Effect)
+pub proof fn lemma_yields_from_order(s: Seq<Policy>, order: Seq<PolicyID>, dom: SSet<PolicyID>, e: Effect)
     requires s.len() == order.len(),
         forall|i: int| 0 <= i < s.len() ==> (#[trigger] s[i]).spec_id() == order[i] && s[i].spec_effect() == e,
         forall|k: PolicyID| dom.contains(k) <==> order.contains(k),
